@@ -88,9 +88,9 @@ def oracle_element(v, i, b):
     return None
 
 
-def oracle_header_field(v):
+def oracle_header_field(v, version="1.4"):
     import laspy
-    h = laspy.LasHeader(version="1.4", point_format=6)
+    h = laspy.LasHeader(version=version, point_format=0)
     h.global_encoding.value = v
     bio = io.BytesIO()
     h.write_to(bio)
@@ -120,10 +120,11 @@ def search(ctx, seeds):
     vals = list(range(65536)) if ctx.thorough() else sorted(set([0, 1, 0xFFFF, 0x8000, 0xFFE0, 0x1F] + [ctx.rng.randrange(65536) for _ in range(1500)]))
     for v in vals:
         ctx.case(("hdr", v), sample=None)
-        why = oracle_header_field(v)
-        if why and "header-field" not in seen:
-            seen.add("header-field")
-            failing.append({"kind": "header-field", "input": {"value": v}, "observed": why})
+        for ver in ("1.1", "1.2", "1.3", "1.4"):
+            why = oracle_header_field(v, ver)
+            if why and "header-field" + ver not in seen:
+                seen.add("header-field" + ver)
+                failing.append({"kind": "header-field " + ver, "input": {"value": v, "version": ver}, "observed": f"LAS {ver}: " + why})
     ctx.count("header-field-roundtrips", len(vals))
     return failing
 
@@ -134,7 +135,7 @@ def replay(ctx, data):
     if "flag" in inp:
         why = oracle_element(inp["value"], FLAGS.index(inp["flag"]), inp["target"])
     elif "value" in inp:
-        why = oracle_header_field(inp["value"])
+        why = oracle_header_field(inp["value"], inp.get("version", "1.4"))
     else:
         print("nothing to replay (no failing input in this file)")
         return 0
